@@ -208,6 +208,96 @@ func returnErrIsNilD(r *ssa.Return, i int, retDepth int) (isNil, known bool) {
 	return false, false
 }
 
+// errNonNilOnPaths: on every path from `from` (edges filtered by edgeOK) to the return ret, result i is a non-nil
+// error — for a named result kept in a cell (functions with a defer): every such path passes a store of a
+// known non-nil error into the cell and no other store into it follows; for a phi: every incoming edge whose
+// predecessor lies on those paths carries a known non-nil error.
+func errNonNilOnPaths(fn *ssa.Function, ret *ssa.Return, i int, from ssa.Instruction, edgeOK func(Edge) bool) bool {
+	if i < 0 || i >= len(ret.Results) {
+		return false
+	}
+	knownNonNil := func(v ssa.Value) bool {
+		switch x := v.(type) {
+		case *ssa.Const:
+			return !x.IsNil()
+		case *ssa.MakeInterface:
+			return true
+		case *ssa.UnOp:
+			if _, ok := x.X.(*ssa.Global); ok && x.Op == token.MUL {
+				return true
+			}
+		case *ssa.Call:
+			if o := calleeObj(x.Common()); o != nil && o.Pkg() != nil {
+				switch o.Pkg().Path() + "." + objName(o) {
+				case "errors.New", "fmt.Errorf", "errors.Join":
+					return true
+				}
+			}
+		}
+		return false
+	}
+	v := ret.Results[i]
+	if u, ok := v.(*ssa.UnOp); ok && u.Op == token.MUL {
+		cell, isAlloc := u.X.(*ssa.Alloc)
+		if !isAlloc {
+			return false
+		}
+		good := map[ssa.Instruction]bool{}
+		var other []ssa.Instruction
+		for _, b := range fn.Blocks {
+			for _, in := range b.Instrs {
+				if st, ok := in.(*ssa.Store); ok && st.Addr == ssa.Value(cell) {
+					if ld, isLoad := st.Val.(*ssa.UnOp); isLoad && ld.Op == token.MUL && ld.X == ssa.Value(cell) {
+						continue // `return err` with a named result: the cell is stored into itself
+					}
+					if knownNonNil(st.Val) {
+						good[in] = true
+					} else {
+						other = append(other, in)
+					}
+				}
+			}
+		}
+		if len(good) == 0 {
+			return false
+		}
+
+		if Reach(fn, from, func(x ssa.Instruction) bool { return good[x] }, edgeOK)[ret] {
+			return false // a path reaches the return without passing a non-nil store
+		}
+		for g := range good {
+			after := Reach(fn, g, nil, nil)
+			for _, o := range other {
+				if after[o] && Reach(fn, o, nil, nil)[ret] {
+					return false
+				}
+			}
+		}
+		return true
+	}
+	if phi, ok := v.(*ssa.Phi); ok {
+		seen := Reach(fn, from, nil, edgeOK)
+		n := 0
+		for k, pred := range phi.Block().Preds {
+			live := pred == from.Block()
+			for _, in := range pred.Instrs {
+				if seen[in] {
+					live = true
+				}
+			}
+			if !live {
+				continue
+			}
+			n++
+			if !knownNonNil(phi.Edges[k]) {
+				return false
+			}
+		}
+		return n > 0
+	}
+	return false
+}
+
 // ReturnOperand reads the i-th result of a Return through the spill that go/ssa
 // introduces in functions containing a defer:  *t0 = V; rundefers; t = *t0; return t.
 func ReturnOperand(r *ssa.Return, i int) ssa.Value {
